@@ -118,11 +118,13 @@ CHECKS["C06"] = {
          "timeout": {"quick": 1500, "thorough": 20000}},
         {"pkg": "./pkg/vaa", "entry": "VerifC06_BodyBound", "reach": ["accepted", "rejected"]},
         {"pkg": "./pkg/vaa", "entry": "VerifC06_MutateInPlace", "reach": ["changed", "unchanged"]},
+        {"pkg": "./pkg/vaa", "entry": "VerifC06_Concurrent", "reach": ["end"]},
     ],
     "bounds": {
-        "quick": {"guardian list": "length n in {0,1,2,3,19,255}; distinct addresses, or list[1]==list[0] (dup) for n in {2,3}; entries beyond the first four are concrete distinct addresses",
+        "quick": {"guardian list": "length n in {0,1,2,3,19,255}; distinct addresses, or list[1]==list[0] (dup) for n in {2,3}; the four signing keys sit at positions 0..3 (n <= 4) or 0, 1, n-2, n-1 (n = 19, 255), all other entries are concrete distinct addresses",
                   "signatures": "k <= 3 (n<=2), k <= 2 (n>=3); guardian-index byte fully symbolic for n <= 19, in {0,1,2,3,253,254,255} for n = 255; each slot's bytes: signed by any of the first min(n,4) members over the digest, by member 0 over a digest with one symbolic body-hash bit flipped, or 65 arbitrary bytes",
-                  "body": "all body fields symbolic, payload length 1..2"},
+                  "body": "all body fields symbolic, payload length 1..2",
+                  "concurrent": "two goroutines verifying a valid VAA and a tampered copy (another sequence number, same signature) at the same time; schedules: pre-emption before every mutex/channel/sync.Pool operation and before the return of a function that puts an object back into a pool"},
         "thorough": {"guardian list": "n in {0,1,2,3,4,19,255}, with and without a repeated address", "signatures": "k <= 3 for n <= 4; n = 19: k <= 2, and k = 3 with the first slot an honest member signature; n = 255: k <= 2"}},
     "outside": "k >= 4 signatures; lists with more than one repeated address; list lengths other than those listed (the code's only size-dependent operations are the two integer comparisons against len(list), exercised at 0..4, 19 and 255 with a symbolic index byte)",
     "assumptions": ["ecrecover model (DESIGN 4): a (digest,signature) pair produced by SignBy recovers to its key; any other pair fails or recovers to an address different from every honest key (existential unforgeability); recovery is a function of (digest, signature)",
